@@ -257,6 +257,31 @@ def run(ctx):
     from lib.peg import Grammar as G12_
     c10_.dot_needs_digit(ctx, "C12.R12", G12_(ctx.grammar))
 
+    # ---------------- R13 nothing answers a comparison ahead of the comparison
+    ctx.rule("C12.R13", "a comparison is answered by its own arm: no statement of the operator evaluator returns a value between the evaluation of the operands and the dispatch on the operator (a shortcut for `xs .== []` answers from one operand), and each of ugt / ult / ugte / ulte has one unguarded arm in the built-in dispatch (a guarded arm in front answers `false` from the operand kinds, e.g. for two booleans, which are ordered)", floor=5)
+    hbo13 = core.hir_fn("blots_core::expressions::evaluate_binary_op_ast")
+    body13 = H.strip(hbo13["body"])
+    early13 = []
+    if H.kind(body13) == "Block":
+        idx13 = [i for i, st in enumerate(body13["stmts"]) if st.get("k") == "Let" and st.get("init") is not None and any(H.kind(x) == "Call" and x.get("def") == "blots_core::expressions::evaluate_ast" for x in H.walk(st["init"]))]
+        disp = [i for i, st in enumerate(body13["stmts"]) if st.get("k") in ("Expr", "Semi") and H.kind(H.strip(st["e"])) == "Match" and (H.strip(st["e"])["scrut"].get("ty") or "").lstrip("&").endswith("ast::BinaryOp")]
+        if idx13 and disp and disp[0] > idx13[-1]:
+            for st in body13["stmts"][idx13[-1] + 1:disp[0]]:
+                for x in H.walk(st):
+                    if H.kind(x) == "Ret" and x.get("e") is not None:
+                        t_ = S.norm(x["e"], S.Env())
+                        if not (t_[0] == "ctor" and t_[1] == "Err"):
+                            early13.append(H.loc(x))
+            ctx.inst("C12.R13", "operator-evaluator#no-answer-before-dispatch", not early13, "values returned between the operand evaluation and the first dispatch on the operator: %s" % (early13 or "none"), H.loc(body13["stmts"][disp[0]]["e"]))
+        else:
+            ctx.inst("C12.R13", "operator-evaluator#no-answer-before-dispatch", None, "operand evaluation / operator dispatch not found as statements of the function's block", H.loc(hbo13["body"]))
+    hb13 = core.hir_fn("blots_core::functions::BuiltInFunction::call")
+    mm13 = H.main_match(hb13["body"], "functions::BuiltInFunction")
+    for u_ in ("Ugt", "Ult", "Ugte", "Ulte"):
+        arms_u = [a_ for a_ in (mm13["arms"] if mm13 else []) if u_ in [H.last(v) for v in H.pat_variants(a_["pat"])]]
+        guarded = [H.loc(a_["guard"]) for a_ in arms_u if a_.get("guard") is not None]
+        ctx.inst("C12.R13", "builtin#%s#one-arm" % u_, None if not arms_u else (not guarded and len(arms_u) == 1), "%d arm(s) for %s; guarded: %s" % (len(arms_u), u_, guarded or "none"), H.loc(arms_u[0]["body"]) if arms_u else None)
+
     # ---------------- R11 an operator is never evaluated as another one
     ctx.rule("C12.R11", "the operator that is evaluated is the operator that was written: where the evaluator re-labels one comparison / equality operator as another (`.<=` handled by the arm of `<=`), the two have the same table - `.>=` sent to `>` answers false for equal operands", floor=1)
     SAME = {"DotEqual": "Equal", "DotNotEqual": "NotEqual", "DotLess": "Less", "DotLessEq": "LessEq", "DotGreater": "Greater", "DotGreaterEq": "GreaterEq"}
